@@ -33,6 +33,25 @@ func countMaps(dir string) int {
 	return n
 }
 
+// openUnder counts the descriptors of this process that refer to files under dir (also unlinked ones).
+func openUnder(dir string) int {
+	abs, err := filepath.Abs(dir)
+	if err != nil {
+		return -1
+	}
+	ents, err := os.ReadDir("/proc/self/fd")
+	if err != nil {
+		return -1
+	}
+	n := 0
+	for _, e := range ents {
+		if t, err := os.Readlink("/proc/self/fd/" + e.Name()); err == nil && strings.HasPrefix(t, abs+"/") {
+			n++
+		}
+	}
+	return n
+}
+
 // Steady runs a steady overwrite/delete workload with periodic compaction and restarts on a real
 // file system and records the resources the database holds after every round (C15).
 func Steady(rec *Rec, id, fsname, dir string, rounds, nkeys int, seed int64) int {
@@ -47,7 +66,7 @@ func Steady(rec *Rec, id, fsname, dir string, rounds, nkeys int, seed int64) int
 	}
 	cfg := Cfg{FS: fsname, MaxSeg: 4096, MinSeg: 1, MinFrag: 0.3, Strict: true}
 	root := RootFS(fsname)
-	s := NewSess(rec, cfg, root, dir, id, Ev{"run": Ev{"cmd": "steady", "rounds": rounds, "keys": nkeys, "seed": seed}})
+	s := NewSess(rec, cfg, root, dir, id, Ev{"dur": false, "ep": false, "run": Ev{"cmd": "steady", "rounds": rounds, "keys": nkeys, "seed": seed}}) // no fault images, stepped scans or damaged tails here: no durability bookkeeping, no set of all pairs ever put
 	fds0, maps0 := countFDs(), countMaps(dir)
 	if err := s.Open(); err != nil {
 		return 0
